@@ -42,12 +42,22 @@ func RunAll(run *hlib.Run, prop string, sigPrefixes []string, n int) {
 			seeds = append(seeds, run.Seed*1000003+500000+uint64(i))
 		}
 	}
+	hangs := 0
 	for idx, s := range seeds {
 		if !run.Mine(idx) {
 			continue
 		}
+		if hangs >= 6 {
+			run.Count("skipped-after-repeated-hangs") // every hang costs its time bound; the violation is already recorded
+			continue
+		}
 		sc := Gen(s, prop)
+		life.Breadcrumb(run.OutDir, "cs "+strconv.FormatUint(s, 10))
 		res := Run(sc)
+		life.Breadcrumb(run.OutDir, "")
+		if res.CloseHang {
+			hangs++
+		}
 		desc := "cs " + strconv.FormatUint(s, 10) + " # " + sc.String()
 		if res.NewErr != "" {
 			run.Count("consumer-not-created")
